@@ -73,8 +73,8 @@ Proof.
     + intros Hnd. now rewrite (to_set_ci_nodup_id _ Hnd).
 Qed.
 
-Lemma will_move_after e mb item new l :
-  will_move e mb item new (set_flags l (calculate_new_flags (lk_flags l) new item)) = false.
+Lemma will_move_after e sp mb item new l :
+  will_move e sp mb item new (set_flags l (calculate_new_flags (lk_flags l) new item)) = false.
 Proof.
   unfold will_move, junk_added, nonjunk_added. simpl. rewrite calc_idem.
   now rewrite !andb_negb_l.
@@ -157,19 +157,19 @@ Qed.
 (** a row that is not re-filed is updated in place - also when Junk is added
     inside Spam / NonJunk inside INBOX (MoveMessageToMailbox reports "not moved") *)
 Lemma no_move_row e s mb l0 item new :
-  will_move e mb item new l0 = false ->
+  will_move e (spam s) mb item new l0 = false ->
   store_row e s mb l0 item new = with_links s (upd_uid mb (lk_uid l0) (links s) (calculate_new_flags (lk_flags l0) new item)).
 Proof.
   unfold will_move, store_row, move. cbv zeta.
   destruct (junk_added _ _).
-  - intros H. apply negb_false_iff in H. now rewrite H.
+  - destruct (spam s) as [d|]; [|reflexivity]. intros H. apply negb_false_iff in H. now rewrite H.
   - destruct (nonjunk_added _ _); [|reflexivity].
     intros H. apply negb_false_iff in H. now rewrite H.
 Qed.
 
 Lemma store_uid_one_spec e s mb item new u :
   uniq_keys (links s) ->
-  (forall l0, find_key (links s) mb u = Some l0 -> will_move e mb item new l0 = false) ->
+  (forall l0, find_key (links s) mb u = Some l0 -> will_move e (spam s) mb item new l0 = false) ->
   store_uid_one e mb item new s u = with_links s (spec_update (links s) mb [u] item new).
 Proof.
   intros Hu Ht. unfold store_uid_one. set (ls := links s) in *. destruct (find_key ls mb u) as [l0|] eqn:Ef.
@@ -192,7 +192,7 @@ Qed.
 
 Lemma store_uid_fold e mb item new : forall uids s,
   uniq_keys (links s) ->
-  (forall u l0, In u uids -> find_key (links s) mb u = Some l0 -> will_move e mb item new l0 = false) ->
+  (forall u l0, In u uids -> find_key (links s) mb u = Some l0 -> will_move e (spam s) mb item new l0 = false) ->
   fold_left (store_uid_one e mb item new) uids s = with_links s (spec_update (links s) mb uids item new).
 Proof.
   induction uids as [|u uids IH]; intros s Hu Ht; simpl.
@@ -209,12 +209,12 @@ Proof.
       * apply (Ht u' l0); auto. now right.
 Qed.
 
-Lemma junk_class_none e mb item new rows :
-  junk_class e mb item new rows = None -> forall l, In l rows -> will_move e mb item new l = false.
+Lemma junk_class_none e sp mb item new rows :
+  junk_class e sp mb item new rows = None -> forall l, In l rows -> will_move e sp mb item new l = false.
 Proof.
   unfold junk_class. destruct (existsb _ rows) eqn:E; [discriminate|]. intros _ l Hl.
   rewrite <- not_true_iff_false, existsb_exists in E.
-  destruct (will_move e mb item new l) eqn:Ew; [|reflexivity]. exfalso. apply E. now exists l.
+  destruct (will_move e sp mb item new l) eqn:Ew; [|reflexivity]. exfalso. apply E. now exists l.
 Qed.
 
 Lemma rows_of_uids_In ls mb uids u l0 :
@@ -225,20 +225,20 @@ Qed.
 
 Theorem store_uid_exact e s mb q item new :
   uniq_keys (links s) ->
-  junk_class e mb item new (rows_of_uids (links s) mb (expand_uid (links s) mb q)) = None ->
+  junk_class e (spam s) mb item new (rows_of_uids (links s) mb (expand_uid (links s) mb q)) = None ->
   store_uid e s mb q item new = with_links s (spec_update (links s) mb (expand_uid (links s) mb q) item new).
 Proof.
   intros Hu Hc. unfold store_uid. apply store_uid_fold; [assumption|].
-  intros u l0 Hin Hf. apply (junk_class_none _ _ _ _ _ Hc). eapply rows_of_uids_In; eauto.
+  intros u l0 Hin Hf. apply (junk_class_none _ _ _ _ _ _ Hc). eapply rows_of_uids_In; eauto.
 Qed.
 
 (** plain STORE: the same loop over the UIDs the sequence set denotes when the
     command starts *)
 Theorem store_seq_exact e s mb q item new :
   uniq_keys (links s) ->
-  junk_class e mb item new (rows_of_uids (links s) mb (seq_targets (links s) mb q)) = None ->
+  junk_class e (spam s) mb item new (rows_of_uids (links s) mb (seq_targets (links s) mb q)) = None ->
   store_seq e s mb q item new = with_links s (spec_update (links s) mb (seq_targets (links s) mb q) item new).
 Proof.
   intros Hu Hc. unfold store_seq. apply store_uid_fold; [assumption|].
-  intros u l0 Hin Hf. apply (junk_class_none _ _ _ _ _ Hc). eapply rows_of_uids_In; eauto.
+  intros u l0 Hin Hf. apply (junk_class_none _ _ _ _ _ _ Hc). eapply rows_of_uids_In; eauto.
 Qed.
